@@ -79,31 +79,76 @@ B(op) == \E p \in Perm3 : Do(op, p[1], p[2], p[3], <<>>)                      \*
 BA(op) == \E g \in Regs : Do(op, g, g, "-", <<>>)                             \* same vector twice (const arguments only)
 N(op) == \E p \in Perm3, n \in 0..3 : Do(op, p[1], p[2], p[3], <<n>>)         \* a list of n vectors
 
-ASet     == \E g \in Regs, v \in Vecs : Assign(g, v)
-ASum     == U("Sum")          AProd    == U("Prod")       ACumSum  == U("CumSum")    ACumProd == U("CumProd")
-AAbs     == U("Abs")          ASqr     == U("Sqr")        AMin     == U("Min")       AMax     == U("Max")
-AWhichMin == U("WhichMin")    AWhichMax == U("WhichMax")  AWhichMinAll == U("WhichMinAll")
-AWhichMaxAll == U("WhichMaxAll")  ARange == U("Range")    AOrder   == U("Order")     AUnique  == U("Unique")
-AIsUnique == U("IsUnique")    ACountValues == U("CountValues")  AMedian == U("Median")
-AWhich   == S("Which")        AWhichAll == S("WhichAll")  AContains == S("Contains") AFill    == S("Fill")
-AAndEq   == S("AndEq")        AAddS    == S("AddS")       ASAdd    == S("SAdd")      ASubS    == S("SubS")
-ASSub    == S("SSub")         AMulS    == S("MulS")       ASMul    == S("SMul")      ADivS    == S("DivS")
-ASDiv    == S("SDiv")         AAddEqS  == S("AddEqS")     ASubEqS  == S("SubEqS")    AMulEqS  == S("MulEqS")
-ADivEqS  == S("DivEqS")
-ARep     == \E p \in Rot3, n \in 0..3 : Do("Rep", p[1], p[2], p[3], <<n>>)
-ASeq     == \E f, t \in Vals, b \in 1..3 : Do("Seq", "-", "-", "-", <<f, t, b>>)
-AAdd     == B("Add") \/ BA("Add")      ASub == B("Sub") \/ BA("Sub")    AMul == B("Mul") \/ BA("Mul")
-ADiv     == B("Div") \/ BA("Div")
-ASumProd == B("SumProd") \/ BA("SumProd")      AScalar == B("Scalar") \/ BA("Scalar")
-AScalar3 == B("Scalar3")      AKron == B("Kron") \/ BA("Kron")
-AUnion   == B("Union") \/ BA("Union")          AInter == B("Inter") \/ BA("Inter")
-ASameC   == B("SameC") \/ BA("SameC")          ASame  == B("Same")
-AContainsAll == B("ContainsAll")               AExtract == B("Extract")
-AAddEq   == B("AddEq")        ASubEq == B("SubEq")        AMulEq == B("MulEq")       ADivEq == B("DivEq")
-AAppend  == B("Append")       APrepend == B("Prepend")    AExtend == B("Extend")     ADiff  == B("Diff")
-AUnionAll == N("UnionAll")    AInterAll == N("InterAll")  AConcat == N("Concat")
-AMean    == U("Mean")         ACenter == U("Center")      ACovB == B("CovB")         AVarB == U("VarB")
-AFdr     == U("Fdr")          ACovO == B("CovO")
+\* one named action per public call (the conjunction keeps TLC's coverage report per call)
+ASet          == /\ \E g \in Regs, v \in Vecs : Assign(g, v)
+ASum          == /\ U("Sum")
+AProd         == /\ U("Prod")
+ACumSum       == /\ U("CumSum")
+ACumProd      == /\ U("CumProd")
+AAbs          == /\ U("Abs")
+ASqr          == /\ U("Sqr")
+AMin          == /\ U("Min")
+AMax          == /\ U("Max")
+AWhichMin     == /\ U("WhichMin")
+AWhichMax     == /\ U("WhichMax")
+AWhichMinAll  == /\ U("WhichMinAll")
+AWhichMaxAll  == /\ U("WhichMaxAll")
+ARange        == /\ U("Range")
+AOrder        == /\ U("Order")
+AUnique       == /\ U("Unique")
+AIsUnique     == /\ U("IsUnique")
+ACountValues  == /\ U("CountValues")
+AMedian       == /\ U("Median")
+AWhich        == /\ S("Which")
+AWhichAll     == /\ S("WhichAll")
+AContains     == /\ S("Contains")
+AFill         == /\ S("Fill")
+AAndEq        == /\ S("AndEq")
+AAddS         == /\ S("AddS")
+ASAdd         == /\ S("SAdd")
+ASubS         == /\ S("SubS")
+ASSub         == /\ S("SSub")
+AMulS         == /\ S("MulS")
+ASMul         == /\ S("SMul")
+ADivS         == /\ S("DivS")
+ASDiv         == /\ S("SDiv")
+AAddEqS       == /\ S("AddEqS")
+ASubEqS       == /\ S("SubEqS")
+AMulEqS       == /\ S("MulEqS")
+ADivEqS       == /\ S("DivEqS")
+ARep          == /\ \E p \in Rot3, n \in 0..3 : Do("Rep", p[1], p[2], p[3], <<n>>)
+ASeq          == /\ \E f, t \in Vals, b \in 1..3 : Do("Seq", "-", "-", "-", <<f, t, b>>)
+AAdd          == /\ (B("Add") \/ BA("Add"))
+ASub          == /\ (B("Sub") \/ BA("Sub"))
+AMul          == /\ (B("Mul") \/ BA("Mul"))
+ADiv          == /\ (B("Div") \/ BA("Div"))
+ASumProd      == /\ (B("SumProd") \/ BA("SumProd"))
+AScalar       == /\ (B("Scalar") \/ BA("Scalar"))
+AScalar3      == /\ B("Scalar3")
+AKron         == /\ (B("Kron") \/ BA("Kron"))
+AUnion        == /\ (B("Union") \/ BA("Union"))
+AInter        == /\ (B("Inter") \/ BA("Inter"))
+ASameC        == /\ (B("SameC") \/ BA("SameC"))
+ASame         == /\ B("Same")
+AContainsAll  == /\ B("ContainsAll")
+AExtract      == /\ B("Extract")
+AAddEq        == /\ B("AddEq")
+ASubEq        == /\ B("SubEq")
+AMulEq        == /\ B("MulEq")
+ADivEq        == /\ B("DivEq")
+AAppend       == /\ B("Append")
+APrepend      == /\ B("Prepend")
+AExtend       == /\ B("Extend")
+ADiff         == /\ B("Diff")
+AUnionAll     == /\ N("UnionAll")
+AInterAll     == /\ N("InterAll")
+AConcat       == /\ N("Concat")
+AMean         == /\ U("Mean")
+ACenter       == /\ U("Center")
+ACovB         == /\ B("CovB")
+AVarB         == /\ U("VarB")
+AFdr          == /\ U("Fdr")
+ACovO         == /\ B("CovO")
 
 Next ==
   \/ ASet \/ ASum \/ AProd \/ ACumSum \/ ACumProd \/ AAbs \/ ASqr \/ AMin \/ AMax
